@@ -63,16 +63,17 @@
        beta v v^T entry by entry (C02_chol_update_correct), the strict upper triangle is untouched
        (C02_chol_update_upper); over the order laws of section UpdateOrdered (they hold over Qc,
        C02_Q_update_order_instance) it returns for every beta >= 0 (C02_chol_update_returns).
+     * EXTENSION (C02LUMatModel.v, C02LUMatProofs.v): pivoting_lu_decomposition::solve(B, left/right) with matrix right-hand
+       sides through the blocked trsm (C02_lu_solve_m_correct).
    ONLY COMPARED / MONITORED by tools/c02.py (no theorem): the value potrf returns on failure (the index is relative to
    the diagonal block that failed; compared with the model); the blocked
    potrf when the diagonal blocks use the right-looking kernel (column-major lower / row-major upper, n > 32: compared
    with the unblocked model, the factor being unique); the semi-definite solver with MATRIX right-hand sides (trsm instead of
    trsv: the vector model is applied column by column / row by row and compared exactly) and for column-major storage the
-   potrf of L^T L (right-looking kernel; contract assumed in C02_semi_solve_with_lsq); matrix right-hand sides of the LU class (the model applies the vector routine column by column / row by
-   row; compared exactly); symmetric eigen-decomposition, conjugate gradient, the OpenBLAS bindings, all floating-point rounding. *)
+   potrf of L^T L (right-looking kernel; contract assumed in C02_semi_solve_with_lsq); symmetric eigen-decomposition, conjugate gradient, the OpenBLAS bindings, all floating-point rounding. *)
 From Coq Require Import List Arith Bool Lia Field QArith Qcanon Permutation.
 From SharkV Require Import C02Model C02Proofs C02Q C02QProofs C02BlkModel C02LUProofs C02CholBlkProofs C02BlkTotalProofs C02LURightProofs.
-From SharkV Require Import C02PstrfModel C02PstrfProofs C02PstrfOrdProofs C02PstrfQProofs C02SemiModel C02SemiProofs C02SemiQProofs C02UpdModel C02UpdProofs C02UpdQProofs.
+From SharkV Require Import C02PstrfModel C02PstrfProofs C02PstrfOrdProofs C02PstrfQProofs C02SemiModel C02SemiProofs C02SemiQProofs C02UpdModel C02UpdProofs C02UpdQProofs C02LUMatModel C02LUMatProofs C02LUMatQProofs.
 Local Close Scope Qc_scope. Local Close Scope Q_scope. Local Open Scope nat_scope.
 
 Section AnyField.
@@ -494,3 +495,24 @@ Proof.
     (conj (qc_nn_div sq) (qc_pos_nle sq))))))).
 Qed.
 Print Assumptions C02_Q_update_order_instance.
+
+(* ================= extension: pivoting_lu_decomposition::solve with matrix right-hand sides (C02LUMatModel.v / C02LUMatProofs.v) ================= *)
+Section LUMat.
+Variable A : Type.
+Variable F : ops A.
+Variable fabs : A -> A.
+Hypothesis Fth : field_theory (fzero F) (fone F) (fadd F) (fmul F) (fsub F) (fopp F) (fdiv F) (finv F) (@eq A).
+Hypothesis feqb_spec : forall x y, feqb F x y = true <-> x = y.
+(* solve(B,left) = swap_rows, trsm<unit_lower,left>, trsm<upper,left>: every column x of the result solves A x = b;
+   solve(B,right) = trsm<upper,right>, trsm<unit_lower,right>, swap_columns_inverted: every row solves x A = b
+   (every block size > 0 of getrf and of trsm) *)
+Theorem C02_lu_solve_m_correct : forall bs tbs tbs' n (M0 LU : mat A) P left vs X, 0 < bs -> 0 < tbs -> 0 < tbs' ->
+  getrf A F fabs bs tbs n M0 = LUOk A LU P -> lu_solve_m A F tbs' left LU P n vs = Some X ->
+  Forall2 (fun b x => forall k, k < n -> (if left then mv A F n M0 x k else vm A F n x M0 k) = b k) vs X.
+Proof. exact (lu_solve_m_correct A F fabs Fth feqb_spec). Qed.
+End LUMat.
+Print Assumptions C02_lu_solve_m_correct.
+Theorem C02_Q_lu_solve_m_satisfiable :
+  exists LU P X, getrf Qc (qc_ops ex_sq) qc_abs 1 1 3 ex_A3 = LUOk Qc LU P /\ lu_solve_m Qc (qc_ops ex_sq) 1 true LU P 3 ex_lum_B = Some X.
+Proof. exact ex_lu_solve_m_satisfiable. Qed.
+Print Assumptions C02_Q_lu_solve_m_satisfiable.
